@@ -615,7 +615,7 @@ def gen_c20(seed, size="quick"):
 
 def gen_c03c(seed, size="quick"):
     """workloads for the synthesised-program runs: always contain index scans that insert into brie/btree relations"""
-    return gen_c03(seed, size, always=(f_index_brie, f_indexed, f_aggr_neg))
+    return gen_c03(seed, size, always=(f_index_brie, f_indexed, f_aggr_neg, f_outer_aggr2))
 
 
 def gen_c03(seed, size="quick", exclude=(), always=()):
